@@ -91,7 +91,7 @@ def setup(cfg):
     r.stub = RandomStub(ties=cfg.get('ties', False), max_expo=cfg.get('max_expo'),
                         truncate=cfg.get('truncate', False),
                         max_draws=cfg.get('max_draws', 16 * max(r.N, 2) if 'SIR' in cfg.get('entry', '') else 400),
-                        max_uniform_per_step=cfg.get('max_unif', 2 + cfg.get('R', 1)))
+                        max_uniform_per_step=cfg.get('max_unif', None if ('discrete' in cfg.get('entry', '') or 'percolat' in cfg.get('entry', '')) else 2 + cfg.get('R', 1)))
     install_sim(r.stub, NPProxy())
     # fast_SIR's constant-rate sampler: the real _truncated_exponential_ (int(t/T) -> mixed integer/real
     # terms) is verified against its contract 0 <= x < T once, in C01; elsewhere it is replaced by that contract
